@@ -69,12 +69,27 @@ ASSUMPTIONS = [
     'field-vs-float gap: the theorems are over ordered fields; the driver evaluates the same definitions in binary64',
 ]
 TRUSTED = ['Lean 4.33 kernel', 'harness/props/c08.py + lean/Driver/C08.lean',
+           'the frozen reference solver in c08.py (pure-Python copy of the njit kernel gamma_iter and of the four solve '
+           'methods): bit-identical to the code on this numba/LLVM; a listed non-root stays listed as long as the frozen '
+           'algorithm itself ends at a non-root on that input (not: at the same bits), the distance between the two end '
+           'points is tagged frozen-vs-real:*',
            'flexsolve root finders, chemicals/thermo correlations (parameters)', 'generator reach (see histogram)']
 
 NAMES = ['Water', 'Ethanol', 'Methanol', 'Propanol', 'Butanol', 'Octane', 'Hexane', 'Benzene', 'Toluene']
 # chemicals used only by the `psat-range-edge` class (single component at the ends of its vapour-pressure model)
-EXTRA_NAMES = ['Cyclohexane', 'tert-Butanol', 'EthylAcetate', 'Heptane']
+EXTRA_NAMES = ['Cyclohexane', 'tert-Butanol', 'EthylAcetate', 'Heptane', 'Pentane', 'Butane', 'Propane']
 ALL_NAMES = NAMES + EXTRA_NAMES
+# one chemical present with the specification beyond its critical point (the `else chemical.Tc` / `else chemical.Pc`
+# branches of the shortcut): (chemical, partner at zero level, which specification can exceed the critical value)
+CRITICAL = [('Pentane', 'Hexane', 'T'), ('Butane', 'Hexane', 'T'), ('Propane', 'Toluene', 'T'),
+            ('Octane', 'Toluene', 'P'), ('Heptane', 'Toluene', 'P')]
+# neighbourhoods of the witnesses of the listed findings that random generation does not reach by itself
+NEIGHBOURS = [(2, 'Propanol,Methanol,Water', 'dewP', 398.517, [0.3284, 0.2734, 0.3982]),
+              (1, 'Benzene,Methanol,Propanol', 'dewP', 286.4, [0.628, 0.372, 1.5e-09]),
+              (1, 'Hexane,Water', 'bubT', 7500.0, [0.05, 0.95]),
+              (2, 'Butanol,Octane,Propanol', 'dewT', 29460.96, [0.4724, 0.3925, 0.1351]),
+              (1, 'Hexane,Propanol', 'dewT', 665828.76, [0.45, 0.55])]
+VSHARES = 16      # the case space is cut into this many seed-derived shares whatever --jobs is
 # (chemical, miscible partner listed next to it, which end of the Psat model lies inside 5e3–3e6 Pa)
 EDGES = [('Cyclohexane', 'Hexane', 'lower'), ('tert-Butanol', 'Ethanol', 'lower'), ('EthylAcetate', 'Toluene', 'lower'),
          ('Benzene', 'Toluene', 'lower'), ('Octane', 'Toluene', 'upper'), ('Hexane', 'Octane', 'upper'),
@@ -247,9 +262,14 @@ class Frozen:
         return 1 - x.sum()
 
     # -- the four solve methods (N ≥ 2, non-reactive); returns (value, ideal T guess stalled)
-    def solve(self, method, zn, spec):
+    def solve(self, method, zn, spec, force_fallback=False):
         flx = self.flx
-        IQ, AS = flx.IQ_interpolation, flx.aitken_secant
+        IQ = flx.IQ_interpolation
+        if force_fallback:
+            # the primary (open) solver fails at once with RuntimeError — what the adapter injects into the real call
+            def AS(*a, **k): raise RuntimeError('primary solver failed')
+        else:
+            AS = flx.aitken_secant
         stalled = False
         if method == 'bubT':
             P = spec; a = zn / P
@@ -264,7 +284,7 @@ class Frozen:
                     Tg = IQ(f, lo, hi, fmax, fmin, None, F_T_TOL, 5e-12, (a, y), checkiter=False, checkbounds=False,
                             maxiter=F_MAXITER)
                     stalled = abs(f(Tg, a, y.copy())) > 1e-6
-            g = self.bub_T_error; args = (P, a, zn, y)
+            g = self.bub_T_error; args = (P, a, zn, y); buf = y
             try:
                 v = AS(g, Tg, Tg + 1e-3, F_T_TOL, 5e-12, args, checkiter=False, maxiter=F_MAXITER)
             except RuntimeError:
@@ -283,7 +303,7 @@ class Frozen:
                     Tg = IQ(f, lo, hi, fmin, fmax, None, F_T_TOL, 5e-12, (a, x), checkiter=False, checkbounds=False,
                             maxiter=F_MAXITER)
                     stalled = abs(f(Tg, a, x.copy())) > 1e-6
-            g = self.dew_T_error; args = (P, zn, a, x)
+            g = self.dew_T_error; args = (P, zn, a, x); buf = x
             try:
                 v = AS(g, Tg, Tg + 1e-3, F_T_TOL, 5e-12, args, maxiter=F_MAXITER, checkiter=False)
             except RuntimeError:
@@ -294,7 +314,7 @@ class Frozen:
             ps = np.array([q(T) for q in self.psat])
             zpg = zn * ps * self.gamma(zn, T)
             Pg = zpg.sum(); y = zpg / Pg
-            g = self.bub_P_error; args = (T, zpg, ps, y)
+            g = self.bub_P_error; args = (T, zpg, ps, y); buf = y
             try:
                 v = AS(g, Pg, Pg - 1, F_P_TOL, 1e-9, args, checkiter=False, maxiter=F_MAXITER)
             except RuntimeError:
@@ -305,13 +325,13 @@ class Frozen:
             ps = np.array([q(T) for q in self.psat], dtype=float)
             a = zn / ps
             Pg = 1. / a.sum(); x = a * Pg
-            g = self.dew_P_error; args = (T, zn, a, ps, x)
+            g = self.dew_P_error; args = (T, zn, a, ps, x); buf = x
             try:
                 v = AS(g, Pg, Pg - 10, F_P_TOL, 5e-12, args, checkiter=False, maxiter=F_MAXITER)
             except RuntimeError:
                 v = IQ(g, self.Pmin, self.Pmax, g(self.Pmin, *args), g(self.Pmax, *args), Pg, F_P_TOL, 5e-12, args,
                        checkiter=False, checkbounds=False, maxiter=F_MAXITER)
-        return float(v), stalled
+        return float(v), stalled, self.normalize(np.array(buf, float))
 
 
 _FROZEN = {}
@@ -352,6 +372,7 @@ class Run:
         self.model_in, self.outs, self.failures, self.tags = [], [], [], set()
         self.seen = {'B': [], 'D': []}     # instances in order of first appearance (id-classes)
         self.multi = False
+        self.inject = False      # True while a `fallback` op makes the primary (open) solver fail
 
     def emit(self, line, ans):
         self.model_in.append(line); self.outs.append(ans)
@@ -392,13 +413,28 @@ class Run:
         n = len(ids)
         N = int((z > 0).sum())
         z_before = z.copy()
+        fired = [0]
+        if self.inject:
+            # fault injection at the boundary to flexsolve (a parameter of the model): the primary open solver raises
+            # RuntimeError at once — as it does when the secant steps to T ≤ 0 / P ≤ 0 — so that the `except RuntimeError`
+            # bracketing fallback of the real solve method runs.  (Chemical.Tsat binds its own name and is unaffected.)
+            import flexsolve
+            orig_as = flexsolve.aitken_secant
+            def failing(*a, **k):
+                fired[0] += 1
+                raise RuntimeError('injected by the C08 harness: primary solver failed')
+            flexsolve.aitken_secant = failing
         try:
-            res = obj(z, T=spec) if method.endswith('P') else obj(z, P=spec)
+            try:
+                res = obj(z, T=spec) if method.endswith('P') else obj(z, P=spec)
+            finally:
+                if self.inject: flexsolve.aitken_secant = orig_as
         except ValueError as e:
             if N == 0:
                 self.emit(self._pt_line(method, spec, spec, spec, 0., 0., 0., z, *[np.ones(n)] * 4), 'err noComponents')
                 return None
             raise
+        if fired[0]: self.tags.add('fallback-entered:' + method)
         if not np.array_equal(z_before, z):
             self.fail(f'{method}:mutates-input', f'{method}{label} {ids}: the call changed the caller\'s composition array '
                                                  f'from {z_before.tolist()} to {z.tolist()}')
@@ -441,6 +477,7 @@ class Run:
         status = 'ok'          # 'ok' | 'documented' (a listed, documented non-root) | 'bad'
         if single:
             supercrit = spec > cs
+            if supercrit: self.tags.add('single-beyond-critical:' + method)
             expect = cr if supercrit else sat
             if not (val == expect or abs(val - expect) <= 1e-12 * abs(expect)):
                 ok = False
@@ -472,21 +509,38 @@ class Run:
                     # very value the call returned, and (2) the input is in one of the documented classes.  Anything
                     # else — a solver that fails where the documented one converges, changed tolerances, a changed
                     # residual function, with or without an immiscible pair — is `:undocumented` / `:wrong-equation`.
-                    ref, stalled = self.reference_path(ids, pkg, method, zn, spec)
-                    documented = ref is not None and math.isfinite(ref) and abs(ref - val) <= 1e-9 * abs(val)
+                    ref, stalled, ref_frac = self.reference_path(ids, pkg, method, zn, spec, self.inject)
+                    # "documented" = the frozen documented algorithm ITSELF fails on this input: it ends at a point that
+                    # is not a root either (judged by the same independent recomputation).  Deliberately NOT "ends at
+                    # the same bits": a diverging secant amplifies a last-bit difference between the code's njit kernel
+                    # and the frozen Python copy (other numba/LLVM versions), which must not turn a listed finding into
+                    # an unlisted one.  The distance between the two end points is printed and tagged.
+                    documented = False
+                    if ref is not None:
+                        if not (math.isfinite(ref) and ref > 0):
+                            documented = True
+                        else:
+                            Tr, Pr = (spec, ref) if method.endswith('P') else (ref, spec)
+                            try:
+                                rr = self.raoult_residual(ids, pkg, method, zn, Tr, Pr, ref_frac)
+                            except Exception:
+                                rr = float('nan')
+                            documented = not abs(rr) <= RES_TOL_MULTI
+                            d = abs(ref - val) / abs(val)
+                            self.tags.add('frozen-vs-real:' + ('bitwise' if d == 0 else 'within-1e-9' if d <= 1e-9 else 'differs'))
+                            where += f' [frozen reference algorithm ends at {ref!r}, residual there {rr:.3g}, relative distance to the returned value {d:.2g}]'
                     trace = bool(zn[zn > 0].min() < 1e-8)
                     if documented:
                         status = 'documented'
                         kind = ':negative-fraction' if (negative and not imm) else ':unconverged'
-                        if imm: cause = kind + ':documented-path' + imm
+                        if self.inject: cause = ':unconverged:documented-path:fallback'
+                        elif imm: cause = kind + ':documented-path' + imm
                         elif negative: cause = kind + ':documented-path' + (':trace-component' if trace else ':no-trace-component')
                         elif stalled: cause = kind + ':documented-path:ideal-guess-stalled'
                         else: cause = kind + ':documented-path:secant-diverges'
                     else:
                         own = self.own_residual_diagnosis(obj, method, zn, T, P, frac)
                         cause = (own if own == ':wrong-equation' else own + ':undocumented') + imm
-                        if ref is not None and math.isfinite(ref):
-                            where += f' [frozen reference algorithm ends at {ref!r}]'
                 self.fail(f'{method}:not-a-root{cause}',
                           f'{where}: 1 − Σ {"z·K" if which == "B" else "z/K"} = {resid:.6g} with z/Σz and K recomputed '
                           f'from chemical.Psat, thermo.Gamma/Phi/PCF (tolerance {RES_TOL_MULTI})')
@@ -514,18 +568,27 @@ class Run:
                     uniq=uniq_flag(ids, pkg, z), z=z.copy(), zn=zn, psat=psat, method=method)
 
     @staticmethod
-    def reference_path(ids, pkg, method, zn, spec):
+    def reference_path(ids, pkg, method, zn, spec, force_fallback=False):
         """signature detail only: the FROZEN reference implementation (class Frozen) of the documented algorithm.
-        Returns (value it ends at | None, ideal T guess did not converge)."""
+        Returns (value it ends at | None, ideal T guess did not converge, fractions at its end point | None)."""
         key = (tuple(ids), pkg)
         fz = _FROZEN.get(key)
         if fz is None:
             if len(_FROZEN) > 2000: _FROZEN.clear()
             fz = _FROZEN[key] = Frozen(ids, pkg)
         try:
-            return fz.solve(method, zn.copy(), spec)
+            return fz.solve(method, zn.copy(), spec, force_fallback)
         except Exception:
-            return None, False
+            return None, False, None
+
+    @staticmethod
+    def raoult_residual(ids, pkg, method, zn, T, P, frac):
+        """1 − Σ z·K (bubble) resp. 1 − Σ z/K (dew) at (T, P) with K recomputed from chemical.Psat and fresh γ/φ/pcf."""
+        bub = method.startswith('bub')
+        xliq, yvap = (zn, frac) if bub else (frac, zn)
+        psat, g, f, c = record(ids, pkg, T, P, xliq, yvap)
+        K = g * c * psat / (f * P)
+        return float(1. - ((zn * K) if bub else (zn / K)).sum())
 
     @staticmethod
     def own_residual_diagnosis(obj, method, zn, T, P, frac):
@@ -614,6 +677,8 @@ def run_impl(case: Case) -> ImplResult:
         pass
     r = Run(ids, pkg)
     if case.meta.get('edge'): r.tags.add('psat-range-edge:' + case.meta['edge'])
+    if case.meta.get('critical'): r.tags.add('single-critical-guard:' + case.meta['critical'])
+    if 'neighbour' in case.meta: r.tags.add('known-witness-neighbourhood')
     for line in case.ops[1:]:
         t = line.split(' ')
         op = t[0]
@@ -684,6 +749,15 @@ def run_impl(case: Case) -> ImplResult:
                         r.order(m[-1], bub, dew, f'{PKG_NAMES[pkg]} {ids} z={b.tolist()} (shared buffer) at spec={spec!r}')
                 prev = (m, spec, res)
             r.tags.add('buffer-history')
+        elif op == 'fallback':
+            # the bracketing fallback of the solve method (reached in the real code when the primary solver raises):
+            # its result is judged like any other
+            method, spec, z = t[1], float(t[2]), np.array(parse_z(t[3]))
+            r.inject = True
+            try:
+                r.solve(method, spec, z, label='[fallback]')
+            finally:
+                r.inject = False
         elif op == 'trace':
             # zero level vs trace level: the call with absent chemicals (for one chemical present: the N = 1 shortcut
             # through Chemical.Tsat/Psat) and the call with those chemicals at a trace `eps·Σz` (the general solver) must
@@ -865,9 +939,14 @@ def gen_case(rng, tier, force=None):
             spec = gen_spec(rng, ids, 'P' if m.endswith('T') else 'T')
             if spec is None: continue
             ops.append(f'scale {m} {spec!r} {rng.choice([1e-3, 1e3, 1e-3, 1e3, 2.0, 0.5])!r} {zs(z)}')
-        elif r < 0.80 and n > 1:
+        elif r < 0.77 and n > 1:
             b = gen_buf(rng, ids)
             if b: ops.append(b)
+        elif r < 0.80 and n > 1:
+            m = rng.choice(METHODS)
+            spec = gen_spec(rng, ids, 'P' if m.endswith('T') else 'T')
+            if spec is None: continue
+            ops.append(f'fallback {m} {spec!r} {zs(z)}')
         elif r < 0.88:
             m = rng.choice(METHODS)
             spec = gen_spec(rng, ids, 'P' if m.endswith('T') else 'T')
@@ -980,6 +1059,46 @@ def gen_edge_case(rng, which):
     return Case(ops, {'edge': end}) if len(ops) > 1 else None
 
 
+def gen_crit_case(rng, which):
+    """one chemical present, specification around / beyond its critical value"""
+    chem, partner, kind = CRITICAL[which]
+    ids = [partner, chem] if rng.random() < 0.5 else [chem, partner]
+    pkg = rng.choice([0, 1, 2])
+    z = [rng.choice([1.0, 1.0, 3.5, 1e-3]) if i == chem else 0.0 for i in ids]
+    c = CH[chem]
+    ops = [f'sys {pkg} {",".join(ids)}']
+    for _ in range(rng.randrange(2, 5)):
+        w = rng.choice(['bub', 'dew'])
+        if kind == 'T':
+            T = round(rng.choice([rng.uniform(c.Tc + 0.01, 480.), rng.uniform(c.Tc - 3., c.Tc - 0.01), c.Tc]), 3)
+            ops.append(f'pt {w}P {T!r} 1.0 {zs(z)}')
+        else:
+            P = round(rng.choice([rng.uniform(c.Pc + 1., 3e6), rng.uniform(0.97 * c.Pc, c.Pc - 1.), c.Pc]), 2)
+            ops.append(f'pt {w}T {P!r} 1.0 {zs(z)}')
+    return Case(ops, {'critical': kind})
+
+
+def gen_neighbour_case(rng, which):
+    pkg, ids, m, spec, z = NEIGHBOURS[which]
+    ops = [f'sys {pkg} {ids}']
+    for _ in range(4):
+        zz = [v * (10 ** rng.uniform(-0.7, 0.7) if v < 1e-6 else 1 + rng.uniform(-0.04, 0.04)) for v in z]
+        sp = round(spec * (1 + rng.uniform(-0.004, 0.004)), 3)
+        ops.append(f'pt {m} {sp!r} 1.0 {zs(zz)}')
+    return Case(ops, {'neighbour': which})
+
+
+def gen_fallback_case(rng):
+    n = rng.choice([2, 2, 3, 4])
+    ids = rng.sample(NAMES, n)
+    pkg = rng.choice([0, 1, 1, 2])
+    ops = [f'sys {pkg} {",".join(ids)}']
+    for m in rng.sample(METHODS, 3):
+        spec = gen_spec(rng, ids, 'P' if m.endswith('T') else 'T')
+        if spec is not None: ops.append(f'fallback {m} {spec!r} {zs(gen_z(rng, n))}')
+    return Case(ops, {'fallback': True}) if len(ops) > 1 else None
+
+
 def gen_perm_sweep(rng, n):
     """all permutations (n ≤ 4) or a sample of 24 (n = 5; all 120 in the thorough tier's sweep) of one system,
     each for one method, plus the three k values."""
@@ -994,16 +1113,31 @@ def gen_perm_sweep(rng, n):
     return ids, pkg, z, m, spec, perms, ops
 
 
-def generate(rng, tier, index, nworkers):
-    n = max(1, budget(tier)['cases'] // nworkers)
-    # permutation / scaling sweeps first (a fixed share), then random cases
-    sweeps = 2 if tier == 'quick' else 6
-    for s in range(sweeps):
-        nn = rng.choice([2, 3, 4] if tier == 'quick' else [3, 4, 5, 5])
+def _run_seed():
+    """the run's seed (the framework hands a per-worker rng only): --seed on the command line, else VERIF_SEED, else the default"""
+    import os, sys
+    a = sys.argv
+    for i, t in enumerate(a):
+        if t == '--seed' and i + 1 < len(a):
+            try: return int(a[i + 1])
+            except ValueError: pass
+        if t.startswith('--seed='):
+            try: return int(t.split('=', 1)[1])
+            except ValueError: pass
+    return int(os.environ.get('VERIF_SEED', '20260927'))
+
+
+def gen_share(rng, tier, v):
+    """one of the VSHARES seed-derived shares of the case space"""
+    q = tier == 'quick'
+    n = max(1, budget(tier)['cases'] // VSHARES)
+    # permutation / scaling sweeps first (a fixed share), then the targeted classes, then random cases
+    for s in range(1 if q else 3):
+        nn = rng.choice([2, 3, 4] if q else [3, 4, 5, 5])
         g = gen_perm_sweep(rng, nn)
         if g is None: continue
         ids, pkg, z, m, spec, perms, ops = g
-        if len(perms) > 24 and tier == 'quick': perms = rng.sample(perms, 24)
+        if len(perms) > 24 and q: perms = rng.sample(perms, 24)
         for p in perms:
             ops.append(f'perm {m} {spec!r} {",".join(map(str, p))} {zs(z)}')
         for k in KS:
@@ -1011,19 +1145,39 @@ def generate(rng, tier, index, nworkers):
                 sp = gen_spec(rng, ids, 'P' if mm.endswith('T') else 'T')
                 if sp is not None: ops.append(f'scale {mm} {sp!r} {k!r} {zs(z)}')
         yield Case(ops, {'sweep': True})
-    # single component at the ends of its vapour-pressure model (every listed chemical once per worker, quick tier)
-    for i in range(len(EDGES) if tier == 'quick' else 4 * len(EDGES)):
-        c = gen_edge_case(rng, i % len(EDGES))
+    # single component at the ends of its vapour-pressure model (each listed chemical ≥ 8 times per quick run)
+    for i in range(4 if q else 2 * len(EDGES)):
+        c = gen_edge_case(rng, (4 * v + i) % len(EDGES))
         if c is not None: yield c
-    # near-azeotropic miscible binaries (a fixed share: every pair at least once per worker in the quick tier)
-    for i in range(len(AZEOTROPES) if tier == 'quick' else 5 * len(AZEOTROPES)):
-        yield gen_azeo_case(rng, i % len(AZEOTROPES))
-    # histories through one reused composition buffer (a fixed share, so every run has them for all four methods)
-    for _ in range(6 if tier == 'quick' else 40):
+    # single component around / beyond its critical point
+    for i in range(2 if q else len(CRITICAL)):
+        yield gen_crit_case(rng, (2 * v + i) % len(CRITICAL))
+    # near-azeotropic miscible binaries
+    for i in range(3 if q else 2 * len(AZEOTROPES)):
+        yield gen_azeo_case(rng, (3 * v + i) % len(AZEOTROPES))
+    # histories through one reused composition buffer
+    for _ in range(3 if q else 20):
         c = gen_buf_case(rng)
         if c is not None: yield c
+    # the bracketing fallbacks of the four solve methods (primary solver made to fail)
+    for _ in range(2 if q else 12):
+        c = gen_fallback_case(rng)
+        if c is not None: yield c
+    # neighbourhoods of the witnesses of listed findings
+    for i in range(2 if q else len(NEIGHBOURS)):
+        yield gen_neighbour_case(rng, (2 * v + i) % len(NEIGHBOURS))
     for _ in range(n):
         yield gen_case(rng, tier)
+
+
+def generate(rng, tier, index, nworkers):
+    """The cases depend on (seed, tier) only: VSHARES shares, each with its own generator derived from the run's seed;
+    worker `index` of `nworkers` takes the shares ≡ index (mod nworkers).  (`rng` — seeded per worker by the framework —
+    is not used, so --jobs does not change the case set.)"""
+    seed = _run_seed()
+    for v in range(VSHARES):
+        if v % nworkers != index: continue
+        yield from gen_share(random.Random((seed * 1000003 + 7919 * (v + 1)) ^ 0xC08), tier, v)
 
 
 def corpus():
@@ -1055,6 +1209,16 @@ def corpus():
              {'edge': 'lower'}),
         Case(['sys 1 Octane,Toluene', 'rt bub T 568.24 1.0,0.0', 'pt dewT 2466095.8 1.0 1.0,0.0', 'trace bubT 2430000.0 1e-10 1.0,0.0'],
              {'edge': 'upper'}),
+        # specification beyond the critical point of the only chemical present
+        Case(['sys 1 Hexane,Pentane', 'pt bubP 475.0 1.0 0.0,1.0', 'pt dewP 475.0 1.0 0.0,2.0', 'pt bubP 469.0 1.0 0.0,1.0',
+              'pt dewP 469.7 1.0 0.0,1.0'], {'critical': 'T'}),
+        Case(['sys 0 Heptane,Toluene', 'pt bubT 2900000.0 1.0 1.0,0.0', 'pt dewT 2900000.0 1.0 1.0,0.0', 'pt bubT 2700000.0 1.0 1.0,0.0'],
+             {'critical': 'P'}),
+        # the bracketing fallbacks (primary solver made to fail)
+        Case(['sys 1 Water,Ethanol', 'fallback bubT 101325.0 0.5,0.5', 'fallback bubP 355.0 0.5,0.5', 'fallback dewT 101325.0 0.5,0.5',
+              'fallback dewP 355.0 0.5,0.5'], {'fallback': True}),
+        Case(['sys 0 Benzene,Toluene,Hexane', 'fallback bubT 80000.0 0.2,0.3,0.5', 'fallback bubP 350.0 0.2,0.3,0.5',
+              'fallback dewT 80000.0 1e-09,0.3,0.7', 'fallback dewP 350.0 0.2,0.3,0.5'], {'fallback': True}),
         # near a pressure-maximum azeotrope the dew/bubble pressure is outside [min Psat, max Psat]
         Case(['sys 1 Water,Propanol'] + [f'rt dew T 360.0 {1 - x:.1f},{x:.1f}' for x in (0.1, 0.3, 0.5, 0.7, 0.9)]
              + ['ord P 360.0 0.6,0.4', 'rt bub T 360.0 0.6,0.4'], {'azeotrope': True}),
